@@ -12,8 +12,9 @@
 (*                relation the trace specification uses (T_X05 would       *)
 (*                accept the code the reference mirrors)                   *)
 (*   ReadSound    every value a read may concretely return is in gamma of  *)
-(*                the reference read result - and of EVERY result value    *)
-(*                that GetOK accepts                                       *)
+(*                the reference read result - and (in the states that are  *)
+(*                not on the last level) of EVERY result value that GetOK  *)
+(*                accepts                                                  *)
 (* An abstract step is not only the reference result: with Variants = TRUE *)
 (* TLC also tries every list that differs from it in ONE cell / one        *)
 (* uniqueness flag / one pointer-target entry and that the step relation   *)
@@ -70,9 +71,11 @@ Var(L) ==
                id \in DOMAIN L, o \in Off, c \in CellVals}
        \cup {[L EXCEPT ![id] = [@ EXCEPT !.uniq = ~@]] : id \in DOMAIN L}
        \cup UNION {{[L EXCEPT ![id] = [@ EXCEPT !.refs = @ \ {i}]] : i \in L[id].refs} : id \in DOMAIN L}
+\* candidate read results: every unflagged value over the alphabet, and Top (a flagged value is gamma-equal to Top)
 ResVals(s) ==
-  {MR!FlagVal(s, a, [MR!NoRel EXCEPT ![1] = r], t) :
-     a \in {ABSENT, 0, 1, BVTOP}, r \in (IF PtrVal THEN {ABSENT, 0} ELSE {ABSENT}), t \in BOOLEAN}
+  {MR!FlagVal(s, a, [MR!NoRel EXCEPT ![1] = r], FALSE) :
+     a \in {ABSENT, 0, 1, BVTOP}, r \in (IF PtrVal THEN {ABSENT, 0} ELSE {ABSENT})}
+  \cup {TopV(s)}
 
 \* every accepted one-change variant of the reference result covers every concrete successor
 Witness(k) == TLCSet(k, TLCGet(k) + 1)
@@ -81,8 +84,9 @@ VarOK(ref, Pred(_), CS) ==
 
 \* one step of list x: abstract successor = the reference result, concrete successor = any of CS;
 \* ok' records that the step relation accepts the reference result and only sound variants
-Step(x, ref, Pred(_), CS) ==
+Step(k, x, ref, Pred(_), CS) ==
   /\ CS # {}
+  /\ Witness(10 + k)                                  \* action k was taken (instead of -coverage: cheaper)
   /\ ok' = (Pred(ref) /\ VarOK(ref, Pred, CS))
   /\ lists' = [lists EXCEPT ![x] = ref]
   /\ \E C2 \in CS : conc' = [conc EXCEPT ![x] = C2]
@@ -123,39 +127,39 @@ InitReachable ==
 DoInsert ==
   \E x \in UsedLists, id \in Ids, ob \in InsObjs :
     /\ id \in DOMAIN conc[x] => Len(conc[x][id]) < 2
-    /\ Step(x, LInsert(lists[x], id, ob), LAMBDA L2 : InsertOK(lists[x], id, ob, L2), CInsert(conc[x], id, ob, CU))
+    /\ Step(1, x, LInsert(lists[x], id, ob), LAMBDA L2 : InsertOK(lists[x], id, ob, L2), CInsert(conc[x], id, ob, CU))
 
 DoStrongWrite ==
   \E x \in UsedLists, p \in Ptrs, v \in GenVals :
     /\ Strong(lists[x], p)
-    /\ Step(x, LSet(lists[x], p, v), LAMBDA L2 : WriteOK(lists[x], p, v, L2, FALSE), CWrite(conc[x], p, v, FALSE, CU, W))
+    /\ Step(2, x, LSet(lists[x], p, v), LAMBDA L2 : WriteOK(lists[x], p, v, L2, FALSE), CWrite(conc[x], p, v, FALSE, CU, W))
 
 DoWeakWrite ==
   \E x \in UsedLists, p \in Ptrs, v \in GenVals :
     /\ ~Strong(lists[x], p)
-    /\ Step(x, LSet(lists[x], p, v), LAMBDA L2 : WriteOK(lists[x], p, v, L2, FALSE), CWrite(conc[x], p, v, FALSE, CU, W))
+    /\ Step(3, x, LSet(lists[x], p, v), LAMBDA L2 : WriteOK(lists[x], p, v, L2, FALSE), CWrite(conc[x], p, v, FALSE, CU, W))
 
 DoMergeValue ==
   \E x \in UsedLists, id \in Ids, v \in GenVals : \E t \in TSpecs(id) :
     /\ id \in DOMAIN lists[x]
     /\ LET p == Ptr(<<t>>, FALSE, FALSE) IN
-       Step(x, LMergeValue(lists[x], t, v), LAMBDA L2 : WriteOK(lists[x], p, v, L2, TRUE), CWrite(conc[x], p, v, TRUE, CU, W))
+       Step(4, x, LMergeValue(lists[x], t, v), LAMBDA L2 : WriteOK(lists[x], p, v, L2, TRUE), CWrite(conc[x], p, v, TRUE, CU, W))
 
 DoArbitrary ==
   \E x \in UsedLists, id \in Ids, add \in {{}, {1}} :
     /\ id \in DOMAIN lists[x]
-    /\ Step(x, LArbitrary(lists[x], id, add), LAMBDA L2 : ArbitraryOK(lists[x], id, add, L2), CArbitrary(conc[x], id))
+    /\ Step(5, x, LArbitrary(lists[x], id, add), LAMBDA L2 : ArbitraryOK(lists[x], id, add, L2), CArbitrary(conc[x], id))
 
 DoNonUnique ==
   \E x \in UsedLists, id \in Ids :
     /\ id \in DOMAIN lists[x] /\ lists[x][id].uniq
-    /\ Step(x, LNonUnique(lists[x], id), LAMBDA L2 : NonUniqueOK(lists[x], id, L2), {conc[x]})
+    /\ Step(6, x, LNonUnique(lists[x], id), LAMBDA L2 : NonUniqueOK(lists[x], id, L2), {conc[x]})
 
 DoMerge ==
   \E dst \in UsedLists :
     /\ TwoLists
     /\ LET src == OtherL(dst) IN
-       Step(dst, LMerge(lists[dst], lists[src]), LAMBDA L2 : MergeOK(lists[dst], lists[src], L2), CMerge(conc[dst], conc[src]))
+       Step(7, dst, LMerge(lists[dst], lists[src]), LAMBDA L2 : MergeOK(lists[dst], lists[src], L2), CMerge(conc[dst], conc[src]))
 
 DoCopy ==
   \E dst \in UsedLists :
@@ -163,6 +167,7 @@ DoCopy ==
     /\ lists' = [lists EXCEPT ![dst] = lists[OtherL(dst)]]
     /\ conc' = [conc EXCEPT ![dst] = conc[OtherL(dst)]]
     /\ ok' = TRUE
+    /\ Witness(18)
 
 \* histories of at most Depth operations (a guard, not a CONSTRAINT: TLC evaluates the invariants on
 \* every GENERATED state that violates a constraint, without deduplication)
@@ -179,7 +184,7 @@ ReadSound ==
         ms  == ConcReads(conc[x], q, s, W) IN
     /\ GetOK(lists[x], q, s, res)
     /\ \A m \in ms : InG(m, res)
-    /\ Variants => \A r2 \in ResVals(s) : GetOK(lists[x], q, s, r2) => \A m \in ms : InG(m, r2)
+    /\ (Variants /\ ~q.abs /\ TLCGet("level") <= Depth) => \A r2 \in ResVals(s) : GetOK(lists[x], q, s, r2) => \A m \in ms : InG(m, r2)
 
 (* Non-vacuity witnesses (counted with TLCSet/TLCGet; read by lib/checks/x05.py):       *)
 (* 1 a unique object holds an unflagged cell; 2 a NON-unique object holds an unflagged  *)
@@ -192,6 +197,7 @@ Count ==
   /\ (\E x \in Lists : \E id \in DOMAIN conc[x] : Len(conc[x][id]) = 2 /\ conc[x][id][1] # conc[x][id][2]) => Witness(3)
   /\ (\E x \in Lists : \E id \in DOMAIN lists[x] : \E o \in DOMAIN lists[x][id].mem :
         LET c == lists[x][id].mem[o] IN ~c.top /\ (c.abs = BVTOP \/ (c.abs # ABSENT /\ RelIds(c) # {}))) => Witness(4)
-ASSUME \A k \in 1..5 : TLCSet(k, 0)
-PostCount == PrintT(<<"WITNESS", [k \in 1..5 |-> TLCGet(k)]>>)
+ASSUME \A k \in 1..18 : TLCSet(k, 0)
+\* transitions taken per action, in the order DoInsert DoStrongWrite DoWeakWrite DoMergeValue DoArbitrary DoNonUnique DoMerge DoCopy
+PostCount == PrintT(<<"WITNESS", [k \in 1..5 |-> TLCGet(k)]>>) /\ PrintT(<<"ACTIONS", [k \in 1..8 |-> TLCGet(10 + k)]>>)
 =============================================================================
